@@ -3,15 +3,15 @@ package sim
 import (
 	"bufio"
 	"bytes"
-	"net"
-	"syscall"
 	"context"
 	"errors"
 	"fmt"
 	"io"
+	"net"
 	"net/http"
 	"strconv"
 	"strings"
+	"syscall"
 	"testing"
 	"testing/synctest"
 	"time"
@@ -35,26 +35,26 @@ const (
 )
 
 type attemptRec struct {
-	n         int
-	kind      attemptKind
-	start     time.Duration // simulated instant RoundTrip was called
-	startSeq  int
-	connected time.Duration // instant the response was returned (streams)
-	ended     time.Duration
-	header    http.Header
-	lastID    []string
-	body      []byte
-	bodyErr   error
-	stream    []byte // bytes actually offered (up to the end offset)
-	endKind   int    // 0 EOF, 1 error, 2 hang until cancelled
-	endErr    error
-	delivered int // bytes handed to the parser
-	reads     []readRec
-	status    int
-	ctype     string
-	dialErr   error
-	ref       RefResult
-	initialID string
+	n           int
+	kind        attemptKind
+	start       time.Duration // simulated instant RoundTrip was called
+	startSeq    int
+	connected   time.Duration // instant the response was returned (streams)
+	ended       time.Duration
+	header      http.Header
+	lastID      []string
+	body        []byte
+	bodyErr     error
+	stream      []byte // bytes actually offered (up to the end offset)
+	endKind     int    // 0 EOF, 1 error, 2 hang until cancelled
+	endErr      error
+	delivered   int // bytes handed to the parser
+	reads       []readRec
+	status      int
+	ctype       string
+	dialErr     error
+	ref         RefResult
+	initialID   string
 	cancelledAt int // delivered bytes when cancellation was seen by Read (-1: not)
 }
 
@@ -116,13 +116,13 @@ type clientWorld struct {
 	maxAtt     int
 	bufSize    int
 
-	ctx       context.Context
-	cancel    context.CancelFunc
-	cancelSeq int
-	cancelAt  time.Duration
-	cancelPlan int // 0 none,1 after attempts,2 at byte offset in attempt,3 at time
+	ctx                         context.Context
+	cancel                      context.CancelFunc
+	cancelSeq                   int
+	cancelAt                    time.Duration
+	cancelPlan                  int // 0 none,1 after attempts,2 at byte offset in attempt,3 at time
 	cancelAttempt, cancelOffset int
-	cancelTime time.Duration
+	cancelTime                  time.Duration
 
 	conn     *sse.Connection
 	attempts []*attemptRec
